@@ -33,6 +33,9 @@ Resolves == Accepted(prog)       \* the denotation is defined for accepted progr
 
 Label == IF Fam = "annots" THEN (CHOOSE x \in AnnotsLabelled : x.p = prog).l ELSE <<>>
 
+\* the members only (for checks that need the programs, not their denotation)
+PrintProg == PrintT(<<"CASE", ToJson([prog |-> prog])>>)
+
 Idx == IF Fam = "file" THEN CHOOSE i \in 1..Len(FilePrograms) : FilePrograms[i] = prog ELSE 0
 
 PrintCase ==
